@@ -155,3 +155,10 @@ Proof.
   assert (Hlt : 7360 < rune_limit) by (vm_compute; reflexivity). specialize (H Hlt).
   clear Ht. destruct (tolower t 7360) as [l|]; [|exact H]. apply N.leb_le in W. lia.
 Qed.
+
+Lemma w_spot_ok : with_table (fun t => negb (chk_spot t)) = true. Proof. vm_compute. reflexivity. Qed.
+Lemma C14_spot_facts_refuted_proof : stmt_C14_spot_facts_refuted.
+Proof.
+  intros H. destruct C14_tables_decode_proof as [t Ht]. specialize (H t Ht).
+  pose proof w_spot_ok as W. rewrite (with_table_spec _ t Ht) in W. clear Ht. rewrite H in W. discriminate W.
+Qed.
